@@ -881,7 +881,13 @@ class Inliner:
                 return n
 
             def visit_GeneratorExp(self, n):
-                return self.visit_ListComp(n) if False else self.generic_visit(n)
+                return self.generic_visit(n)
+
+            def visit_Assign(self, n):
+                # `a, b, c = (f(x) for x in (p, q, r))`: unpacking consumes the generator at once, like the list
+                if len(n.targets) == 1 and isinstance(n.targets[0], (ast.Tuple, ast.List)) and isinstance(n.value, ast.GeneratorExp):
+                    n.value = ast.copy_location(ast.ListComp(elt=n.value.elt, generators=n.value.generators), n.value)
+                return self.generic_visit(n)
 
             def visit_Call(self, n):
                 self.generic_visit(n)
@@ -1147,6 +1153,25 @@ def _drop_pass(tree):
                     setattr(node, fld, kept)
 
 
+def _group_expr(e):
+    """the match variable m if e is m.group(<constant>) of one m, possibly or-ed with constant defaults; else None"""
+    ms = set()
+
+    def ok(x):
+        if isinstance(x, ast.Constant):
+            return True
+        if isinstance(x, ast.Call) and isinstance(x.func, ast.Attribute) and x.func.attr == 'group' and isinstance(x.func.value, ast.Name) and \
+                len(x.args) == 1 and isinstance(x.args[0], ast.Constant) and not x.keywords:
+            ms.add(x.func.value.id)
+            return True
+        if isinstance(x, ast.BoolOp) and isinstance(x.op, ast.Or):
+            return all(ok(v) for v in x.values)          # `m.group(1) or ' '`: a group with its default
+        return False             # (a truth value computed from a group -- `not g or g == '+'` -- is a flag with a name of its own)
+    if ok(e) and len(ms) == 1:
+        return next(iter(ms))
+    return None
+
+
 def _groups_desugar(fd):
     """`a, b, c = m.groups()` with m a regex match object: every later read of a / b / c is m.group(1) / (2) / (3)
     (when a, b, c are assigned nowhere else and m is not rebound in between -- checked per enclosing block)."""
@@ -1173,11 +1198,9 @@ def _groups_desugar(fd):
                         ast.fix_missing_locations(stmts[j])
                     del stmts[i]
                     continue
-            if isinstance(st, ast.Assign) and len(st.targets) == 1 and isinstance(st.targets[0], ast.Name) and isinstance(st.value, ast.Call) and \
-                    isinstance(st.value.func, ast.Attribute) and st.value.func.attr == 'group' and isinstance(st.value.func.value, ast.Name) and \
-                    len(st.value.args) == 1 and isinstance(st.value.args[0], ast.Constant) and not st.value.keywords:
-                # x = m.group(k): a plain name for one group
-                mv = st.value.func.value.id
+            if isinstance(st, ast.Assign) and len(st.targets) == 1 and isinstance(st.targets[0], ast.Name) and _group_expr(st.value) is not None:
+                # x = m.group(k) (or `m.group(k) or ' '`, `not m.group(k)` ...): a plain name for an expression over the groups of one match
+                mv = _group_expr(st.value)
                 nm = st.targets[0].id
                 rest = stmts[i + 1:]
                 sto = _stores(rest)
@@ -1189,8 +1212,7 @@ def _groups_desugar(fd):
                         for idx_, x_ in enumerate(L):
                             if isinstance(x_, ast.Assign) and len(x_.targets) == 1 and isinstance(x_.targets[0], ast.Name) and x_.targets[0].id == nm:
                                 v_ = x_.value
-                                if not (isinstance(v_, ast.Call) and isinstance(v_.func, ast.Attribute) and v_.func.attr == 'group' and len(v_.args) == 1 and
-                                        isinstance(v_.args[0], ast.Constant)):
+                                if _group_expr(v_) is None:
                                     return False
                                 cands.append(L[idx_ + 1:])
                             for fld_ in ('body', 'orelse', 'finalbody'):
@@ -1397,14 +1419,21 @@ def _extend_as_loop(fd):
             if new is not None:
                 # the comprehension's variables are local to it: keep the rewrite only when they do not clash with names of the function
                 names = {n.id for g in (st.value.args[0] if isinstance(st, ast.Expr) else st.value).generators for n in ast.walk(g.target) if isinstance(n, ast.Name)}
-                clash = False
+                # the comprehension's variables are its own: one that is also a name of the function gets a fresh name in the loop
+                ren = {}
+                taken = {n.id for n in ast.walk(fd) if isinstance(n, ast.Name)} | {a.arg for a in fd.args.args + fd.args.kwonlyargs}
                 for nm in names:
                     cnt_all = sum(1 for n in _walk_no_defs(fd.body) if isinstance(n, ast.Name) and n.id == nm)
                     cnt_in = sum(1 for n in ast.walk(st) if isinstance(n, ast.Name) and n.id == nm)
                     if cnt_all != cnt_in or nm in {a.arg for a in fd.args.args + fd.args.kwonlyargs}:
-                        clash = True
-                if not clash:
-                    stmts[i] = new
+                        k_ = 1
+                        while '%s_%d' % (nm, k_) in taken:
+                            k_ += 1
+                        ren[nm] = '%s_%d' % (nm, k_)
+                        taken.add(ren[nm])
+                if ren:
+                    new = _Rename(ren).visit(new)
+                stmts[i] = new
     rewrite(fd.body)
 
 
